@@ -907,6 +907,45 @@ func vrtEnvelopedValid(value interface{}, sig interface{}, certDER string) bool 
 	return err == nil
 }
 
+// vrtC14NSensitive: some character data of the value as encoding/xml writes it
+// contains one of & < > CR, or some attribute value one of & < " TAB LF CR -
+// the characters exclusive C14N writes as character references (the enveloped
+// Signature element itself is not looked at).
+func vrtC14NSensitive(value interface{}) bool {
+	b, err := xml.Marshal(value)
+	if err != nil {
+		return false
+	}
+	d := xml.NewDecoder(bytes.NewReader(b))
+	inSig := 0
+	for {
+		tok, err := d.RawToken()
+		if err != nil {
+			return false
+		}
+		switch t := tok.(type) {
+		case xml.StartElement:
+			if inSig > 0 || t.Name.Local == "Signature" {
+				inSig++
+				continue
+			}
+			for _, a := range t.Attr {
+				if strings.ContainsAny(a.Value, "&<\"\t\n\r") {
+					return true
+				}
+			}
+		case xml.EndElement:
+			if inSig > 0 {
+				inSig--
+			}
+		case xml.CharData:
+			if inSig == 0 && strings.ContainsAny(string(t), "&<>\r") {
+				return true
+			}
+		}
+	}
+}
+
 func vrtSPSignRedirect(pub interface{}, octets, alg string) string {
 	if _, ok := pub.(*rsa.PublicKey); !ok {
 		panic(vrtStop{"native signer has an RSA key only"})
